@@ -60,9 +60,21 @@ def renumber(mesh, rng):
 
 
 def boundary_nodes(mesh):
+    """nodes of the OUTER boundary: lower-dimensional elements that are a face of exactly one main element (a merged mesh also
+    carries the former boundaries of its parts: their interface lies inside the domain and must stay free)"""
+    node_elems = {}
+    k = 0
+    for g in mesh.Get_list_groupElem(mesh.dim):
+        for row in np.asarray(g.connect):
+            for n in row:
+                node_elems.setdefault(int(n), set()).add(k)
+            k += 1
     nodes = set()
     for g in mesh.Get_list_groupElem(mesh.dim - 1):
-        nodes |= set(int(n) for n in g.connect.ravel())
+        for row in np.asarray(g.connect):
+            owners = set.intersection(*(node_elems.get(int(n), set()) for n in row))
+            if len(owners) == 1:
+                nodes |= set(int(n) for n in row)
     return np.array(sorted(nodes))
 
 
@@ -375,6 +387,72 @@ def main():
                     res.fail(f"beam patch raises after stretching {mode}", f"{type(ex).__name__}: {str(ex)[:150]}", ident)
                 finally:
                     smesh.coord = X0s
+
+    # ---------------- beams in 3D: axial strain, twist rate, curvature about each section axis ----------------
+    for et in (["SEG2", "SEG3"] if not thorough else ["SEG2", "SEG3", "SEG4", "SEG5"]):
+        for timo in (False, True):
+            L = 4.0
+            sect = Mesher().Mesh_2D(Domain(Point(), Point(0.5, 0.25)))
+            d3 = np.array([rng.randint(1, 4), rng.randint(-3, 3), rng.randint(-3, 3)], dtype=float)
+            d3 /= np.linalg.norm(d3)
+            a3 = np.array([0.3, 1.0, -0.2])
+            y3 = a3 - (a3 @ d3) * d3
+            y3 /= np.linalg.norm(y3)
+            z3 = np.cross(d3, y3)
+            Q3 = np.stack([d3, y3, z3], axis=1)          # columns: the member's own axes
+            p0 = np.array([0.25, -0.5, 0.75])
+            beams3 = [Models.Beam.Isotropic(3, Line(Point(*p0), Point(*(p0 + L * d3)), L / 3), sect, 1000.0, 0.25, tuple(y3))]
+            mesh3 = Mesher().Mesh_Beams(beams3, elemType=ElemType(et))
+            s3loc = (mesh3.coord - p0) @ d3
+            ends3 = np.array([int(np.argmin(s3loc)), int(np.argmax(s3loc))])
+            for mode in ("axial", "twist", "curvature about z", "curvature about y"):
+                c_ = rng.randint(1, 8) / 64
+                ul, rl = np.zeros((len(s3loc), 3)), np.zeros((len(s3loc), 3))
+                if mode == "axial":
+                    ul[:, 0] = c_ * s3loc / 4
+                elif mode == "twist":
+                    rl[:, 0] = c_ * s3loc
+                elif mode == "curvature about z":
+                    ul[:, 1], rl[:, 2] = c_ * s3loc**2 / 2, c_ * s3loc        # rz = v'
+                else:
+                    ul[:, 2], rl[:, 1] = c_ * s3loc**2 / 2, -c_ * s3loc       # ry = -w'
+                want3 = np.c_[ul @ Q3.T, rl @ Q3.T]
+                ident = dict(beam=et, timoshenko=timo, dim=3, mode=mode, direction=d3.tolist(), yAxis=y3.tolist())
+                try:
+                    sb3 = Simulations.Beam(mesh3, Models.Beam.BeamStructure(beams3), useTimoshenko=timo)
+                    sb3.add_dirichlet(ends3, [want3[ends3, k] for k in range(6)], ["x", "y", "z", "rx", "ry", "rz"])
+                    u3 = np.asarray(sb3.Solve()).reshape(-1, 6)
+                except Exception as ex:  # noqa: BLE001
+                    res.fail(f"3D beam patch raises {mode}", f"{type(ex).__name__}: {str(ex)[:150]}", ident)
+                    continue
+                res.case(("beam3d", et, timo, mode))
+                res.count("beam3d")
+                err3 = np.abs(u3 - want3).max() / (1 + np.abs(want3).max())
+                if err3 > 1e-9:
+                    res.fail(f"3D beam patch {mode} timo={timo} elem={et}", f"constant {mode} field prescribed at the two ends is not reproduced at the interior nodes: max error {err3:.2e}", ident)
+
+    # ---------------- heat conduction on meshes mixing element types, thickness != 1 ----------------
+    for mname, mk_ in (("TRI3+QUAD4", lambda: M.mesh_mixed_2d()), ("TRI6+QUAD8", lambda: M.mesh_mixed_2d("TRI6", "QUAD8"))):
+        meshm = mk_()
+        Am, tm = rand_affine(rng, 2)
+        M.affine(meshm, Am, tm)
+        Xm = meshm.coord
+        thm = rng.choice([0.375, 2.5])
+        sm = Simulations.Thermal(meshm, Models.Thermal(q(rng, 1, 5), 0.0, thickness=thm))
+        gm = np.array([rng.randint(-8, 8) / 8, rng.randint(1, 8) / 8, 0.0])
+        bnm = boundary_nodes(meshm)
+        sm.add_dirichlet(bnm, [0.5 + Xm[bnm] @ gm], ["t"])
+        identm = dict(mesh=mname, sim="thermal", thickness=thm, gradient=gm[:2].tolist())
+        res.case((mname, "thermal mixed"))
+        res.count("thermal-mixed")
+        try:
+            Tm = np.asarray(sm.Solve()).ravel()
+            usedm = np.unique(np.concatenate([g.connect.ravel() for g in meshm.Get_list_groupElem(2)]))
+            errm = np.abs(Tm[usedm] - (0.5 + Xm @ gm)[usedm]).max()
+            if errm > 1e-9 * (1 + np.abs(Xm @ gm).max()):
+                res.fail(f"thermal patch mixed mesh {mname}", f"linear temperature not reproduced on a mesh mixing element types with thickness {thm}: max error {errm:.2e}", identm)
+        except Exception as ex:  # noqa: BLE001
+            res.fail(f"thermal patch raises mixed mesh {mname}", f"{type(ex).__name__}: {str(ex)[:150]}", identm)
 
     answers = driver.ask(lines)
     if answers is None:
